@@ -505,27 +505,9 @@ func xGenerate(seed int64, thorough bool) []xOp {
 			}
 		}
 	}
-	if thorough || os.Getenv("VERIF_FULL_PRODUCT") != "" {
-		ops = append(ops, product...)
-	} else {
-		// quick tier: all strict-mode rows with exactly one or zero insecure settings + a random sample of the rest
-		r.Shuffle(len(product), func(i, j int) { product[i], product[j] = product[j], product[i] })
-		k := 0
-		for _, p := range product {
-			insecure := 0
-			for _, b := range []bool{p.URL != "https://nuts.nl", !p.TLS && len(p.Methods) > 0 && strings.Contains(strings.Join(p.Methods, ","), "nuts"), p.Crypto != "fs", !p.SQL, p.Irma != "pbdf"} {
-				if b {
-					insecure++
-				}
-			}
-			if insecure <= 1 || k < 140 {
-				ops = append(ops, p)
-				if insecure > 1 {
-					k++
-				}
-			}
-		}
-	}
+	// exhaustive in both tiers (the whole product takes ~20 s); the order is shuffled per seed
+	r.Shuffle(len(product), func(i, j int) { product[i], product[j] = product[j], product[i] })
+	ops = append(ops, product...)
 	// a CLI secret on an otherwise fine node, both modes
 	for _, strict := range []bool{true, false} {
 		op := base
